@@ -255,6 +255,36 @@ func TestRSATokenKeyEncoding(t *testing.T) {
 				return
 			}
 		}
+		// the convenience wrapper, and right after it the key's "concatenation twin": moving digits between the end of the
+		// modulus and the front of the exponent gives another key with the same hex(N)||hex(E) (what an encoding cache keyed
+		// by an unframed rendering of the key would confuse)
+		if n.BitLen() >= 64 {
+			var w1 []byte
+			if o := rt.GuardLite(func() { w1 = util.MustMarshalPublicKey(key) }); o.Panic != nil || !bytes.Equal(w1, pss) {
+				rt.Fail(t, "C18/must-marshal", "MustMarshalPublicKey differs from MarshalTokenKeyPSSOID (%v)", o.Panic)
+				return
+			}
+			hexE := fmt.Sprintf("%x", e)
+			if len(hexE) >= 2 {
+				cut := gen.UniformRange(t, 1, len(hexE)-1, "twinCut")
+				n2, ok1 := new(big.Int).SetString(fmt.Sprintf("%x", n)+hexE[:cut], 16)
+				e2, ok2 := new(big.Int).SetString(hexE[cut:], 16)
+				if ok1 && ok2 && e2.Sign() > 0 && e2.IsInt64() && e2.Int64() < 1<<31 {
+					twin := &rsa.PublicKey{N: n2, E: int(e2.Int64())}
+					var w2 []byte
+					want2 := ref.TokenKeyPSS(twin.N, big.NewInt(int64(twin.E)))
+					if o := rt.GuardLite(func() { w2 = util.MustMarshalPublicKey(twin) }); o.Panic != nil || !bytes.Equal(w2, want2) {
+						rt.Fail(t, "C18/must-marshal-twin", "MustMarshalPublicKey of (N', E') = (N*16^%d + top digits of E, remaining digits of E) right after (N, E) does not return the encoding of (N', E') (%v)", cut, o.Panic)
+						return
+					}
+					if back := util.MustUnmarshalPublicKey(w2); back.N.Cmp(twin.N) != 0 || back.E != twin.E {
+						rt.Fail(t, "C18/must-marshal-twin", "MustUnmarshalPublicKey does not invert MustMarshalPublicKey for the twin key")
+						return
+					}
+					s.Class("concatenation-twin")
+				}
+			}
+		}
 		for _, lf := range []bool{true, false} {
 			got, err := util.MarshalTokenKey(key, lf)
 			want := pss
